@@ -169,7 +169,9 @@ impl Property for C10 {
         vec!["two_open", "same_id_two_pending", "same_addr_two_tokens", "full_refused", "timeout_disconnect", "client_disconnect", "server_disconnect", "replay", "limit_raised", "limit_lowered", "payload_ok", "payload_routed", "cross_response", "shared_user_data"]
     }
     fn run_choices(&self, ctx: &mut Ctx) -> Outcome {
-        let mut nw = NetWorld::new(ctx.src.u16() as u64);
+        let seed16 = ctx.src.u16() as u64;
+        let idb = id_base(seed16);
+        let mut nw = NetWorld::new(seed16);
         let max_clients = 1 + ctx.src.below(4);
         // a tenth of the cases run the server in its Unsecure development mode (tokens sealed with the all-zero key, host list unchecked)
         let unsecure = ctx.src.chance(25);
@@ -193,7 +195,7 @@ impl Property for C10 {
             let ident = ctx.src.below(4) as u64;
             let addr_i = ctx.src.below(5);
             let user = if shared_user_data { 7 } else { ident * 16 + nw.clients.len() as u64 };
-            let t = nw.mint(&TokenSpec { client_id: 300 + ident, user, expire_seconds: 600, timeout, addrs: vec![server_addr(0)], key: token_key, protocol: PROTO });
+            let t = nw.mint(&TokenSpec { client_id: idb + 300 + ident, user, expire_seconds: 600, timeout, addrs: vec![server_addr(0)], key: token_key, protocol: PROTO });
             nw.add_client(t, client_addr(addr_i), user)
         };
         for _ in 0..2 {
@@ -277,7 +279,7 @@ impl Property for C10 {
                     Op::ClientDisconnect { client: c, delivered }
                 }
                 3 => {
-                    let id = 300 + ctx.src.below(4) as u64;
+                    let id = idb + 300 + ctx.src.below(4) as u64;
                     let before = nw.servers[0].server.connected_clients();
                     let was = m.open.contains_key(&id);
                     let out = nw.server_disconnect(0, id);
@@ -369,7 +371,7 @@ impl Property for C10 {
                     // a payload datagram; it must exist exactly if the id is connected, be addressed to the authenticated session's
                     // address and be sealed for that session
                     {
-                        let probe = 300 + (c % 4) as u64;
+                        let probe = idb + 300 + (c % 4) as u64;
                         let pmsg = vec![0xA0 | (probe as u8 & 3); 7 + ops % 9];
                         match (nw.server_payload(0, probe, &pmsg), m.open.get(&probe)) {
                             (Ok(did), Some(sess)) => {
